@@ -1128,6 +1128,78 @@ func init() {
 			errBeforeUse(c, r)
 		})
 	})
+	extra["C19"] = append(extra["C19"], func(c *core.Ctx, r *core.Report) {
+		rule(r, "C19.R9", "a share of the failed iterations stated anywhere (a percentage next to the verdict's threshold) is taken of all iterations — successful, failed and dropped — like the share the verdict tests: every quotient in internal/progress whose numerator is the failed count divides by a total that includes the dropped count", func() {
+			// the count fields a value is computed from
+			var leaves func(v ssa.Value, depth int, out map[string]bool)
+			leaves = func(v ssa.Value, depth int, out map[string]bool) {
+				if depth <= 0 || v == nil {
+					return
+				}
+				switch x := v.(type) {
+				case *ssa.BinOp:
+					leaves(x.X, depth-1, out)
+					leaves(x.Y, depth-1, out)
+				case *ssa.Convert:
+					leaves(x.X, depth-1, out)
+				case *ssa.ChangeType:
+					leaves(x.X, depth-1, out)
+				case *ssa.Phi:
+					for _, e := range x.Edges {
+						leaves(e, depth-1, out)
+					}
+				case *ssa.Call:
+					if t := an.Callee(x); t != nil && core.InModule(t) && t.Blocks != nil {
+						for _, ret := range an.Returns(t) {
+							if len(ret.Results) == 1 {
+								leaves(ret.Results[0], depth-1, out)
+							}
+						}
+					}
+				case *ssa.UnOp:
+					if sv := stripAllocs(x); sv != ssa.Value(x) {
+						leaves(sv, depth-1, out)
+						return
+					}
+					if fld, owner := an.TerminalField(x); fld != nil && owner != nil {
+						out[shortPath(an.D().Of(x))] = true
+					}
+				case *ssa.Field:
+					out[shortPath(an.D().Of(x))] = true
+				}
+			}
+			has := func(m map[string]bool, sub string) bool {
+				for k := range m {
+					if strings.Contains(k, sub) {
+						return true
+					}
+				}
+				return false
+			}
+			n := 0
+			for _, fn := range c.AllFuncs {
+				if core.RelPkg(fn) != "internal/progress" {
+					continue
+				}
+				an.Instrs(fn, func(in ssa.Instruction) {
+					q, ok := in.(*ssa.BinOp)
+					if !ok || q.Op != token.QUO {
+						return
+					}
+					num, den := map[string]bool{}, map[string]bool{}
+					leaves(q.X, 6, num)
+					leaves(q.Y, 6, den)
+					if !has(num, "FailedIterationDurations.Count") || has(num, "SuccessfulIterationDurations.Count") {
+						return // not a share of the failed iterations
+					}
+					n++
+					okDen := has(den, "FailedIterationDurations.Count") && has(den, "SuccessfulIterationDurations.Count") && has(den, "DroppedIterationCount")
+					r.Check(okDen, core.FuncName(fn)+"#failed-share-of-all", an.Pos(c, q), "the failed share is taken of all iterations (successful + failed + dropped)", sprintf("the failed share computed here is taken of %v, not of all iterations (successful + failed + dropped): with dropped iterations present the figure stated differs from the share the verdict and the summary's other lines are based on", keys(den)))
+				})
+			}
+			r.Exists("failed-share quotients in internal/progress", "-", "%d", n)
+		})
+	})
 	teardownCallers := func(prop, id string) {
 		extra[prop] = append(extra[prop], func(c *core.Ctx, r *core.Report) {
 			rule(r, id, "the handle's tearing-down phase begins only when its use ends: the function that switches the phase marker on is reached only through the teardown the constructor handed out, never called from another method while the body may still run", func() {
